@@ -51,7 +51,11 @@ def collect(b, u):
         treq = set(norm('__CPROVER_requires(%s)' % x) for x in c.get('requires_target', []))
         # requires_target entries went through the same placeholder substitution; compare on the substituted text
         req = [r for r in req if 'is_fresh' not in r or r not in treq]
-        rec['enforced'] = {'fn': t, 'key': [os.path.basename(str(fi[t]['file'])), fi[t]['line']], 'req': [r for r in req if '__CPROVER_is_fresh' not in r], 'ens': ens, 'asg': asg}
+        # bounds on rigid ghost indices (g_q < CAPACITY, ...) choose the instance of a pointwise clause; they are not
+        # preconditions a caller has to establish
+        ghost_bound = re.compile(r'^__CPROVER_requires\(\(?g_[a-z0-9_]+ (<|<=) [^&|]*\)$')
+        rec['enforced'] = {'fn': t, 'key': [os.path.basename(str(fi[t]['file'])), fi[t]['line']],
+                           'req': [r for r in req if '__CPROVER_is_fresh' not in r and not ghost_bound.match(r)], 'ens': ens, 'asg': asg}
     for cname, mode in b.ctx.fn_mode.items():
         if mode not in ('contract', 'stub') or cname == t or cname not in b.ctx.fn_decls:
             continue
